@@ -25,7 +25,10 @@ __ebd_read_array() {
 
 # read -N usage requires bash-4.1 or so (EAPI 6 requires >= 4.2)
 __ebd_read_size() {
-	read -u ${PKGCORE_EBD_READ_FD} -r -N $1 $2
+	# the size is in bytes; read -N counts characters of the current locale, so
+	# under a UTF-8 locale (the environment sent earlier may have set LC_ALL,
+	# LC_CTYPE or LANG) it would wait for more than was sent
+	LC_ALL=C read -u ${PKGCORE_EBD_READ_FD} -r -N $1 $2
 	local ret=$?
 	[[ ${ret} -ne 0 ]] && \
 		die "coms error in ${PKGCORE_EBD_PID}, read_size $@ failed w/ ${ret}"
